@@ -45,6 +45,8 @@ impl Buffer {
 
     pub(crate) fn clear(&mut self) {
         self.window = 0..0;
+        #[cfg(feature = "verif")]
+        super::verif::emit(super::verif::Event::Clear);
     }
     /// Skip first `count` occupied bytes.
     pub(crate) fn skip(&mut self, count: usize) {
@@ -53,16 +55,33 @@ impl Buffer {
         if self.window.is_empty() {
             self.window = 0..0;
         }
+        #[cfg(feature = "verif")]
+        super::verif::emit(super::verif::Event::Skip {
+            count,
+            start: self.window.start,
+            end: self.window.end,
+        });
     }
     /// Make first `count` vacant bytes occupied.
     pub(crate) fn advance(&mut self, count: usize) {
         self.window.end += count;
         assert!(self.window.end <= self.capacity());
+        #[cfg(feature = "verif")]
+        super::verif::emit(super::verif::Event::Advance {
+            count,
+            start: self.window.start,
+            end: self.window.end,
+        });
     }
     /// Move data to the beginning of buffer to get free room for next data.
     pub(crate) fn make_contiguous(&mut self) {
         self.data.copy_within(self.window.clone(), 0);
         self.window = 0..(self.window.end - self.window.start);
+        #[cfg(feature = "verif")]
+        super::verif::emit(super::verif::Event::MakeContiguous {
+            start: self.window.start,
+            end: self.window.end,
+        });
     }
 }
 
@@ -82,6 +101,20 @@ impl<P> IoBuffer<P> {
     }
     pub(crate) fn split_mut(&mut self) -> (&mut P, &mut Buffer) {
         (&mut self.pipe, &mut self.buffer)
+    }
+}
+
+#[cfg(feature = "verif")]
+impl<P> IoBuffer<P> {
+    /// `(window start, window end, capacity, poisoned)`.
+    pub fn verif_state(&self) -> (usize, usize, usize, bool) {
+        (self.buffer.window.start, self.buffer.window.end, self.buffer.capacity(), self.poisoned)
+    }
+    pub fn verif_pipe(&self) -> &P {
+        &self.pipe
+    }
+    pub fn verif_pipe_mut(&mut self) -> &mut P {
+        &mut self.pipe
     }
 }
 
